@@ -89,8 +89,9 @@ def mcLine (st : McSt) (line : String) : McSt × List String :=
   | ["refenum"] => ({ st with refenum := true }, [])
   | ["preds"] => ({ st with preds := true }, [])
   | ["node", n] => ({ st with nodes := st.nodes ++ [name! n] }, [])
-  | ["proc", p, n] => ({ st with procs := st.procs ++ [(name! p, name! n, false)] }, [])
-  | ["proc", p, n, "rec"] => ({ st with procs := st.procs ++ [(name! p, name! n, true)] }, [])
+  | "proc" :: p :: n :: flags =>
+    ({ st with procs := st.procs ++ [(name! p, name! n, flags.contains "rec")],
+               canons := if flags.any (fun f => f == "py" || f == "pyd" || f == "canon") then st.canons ++ [name! p] else st.canons }, [])
   | "rule" :: p :: s1 :: trig :: s2 :: acts =>
     ({ st with rules := st.rules ++ [(name! p, { st := nat! s1, trig := trig! trig, st2 := nat! s2,
                                                    acts := acts.filterMap sact! })] }, [])
